@@ -85,6 +85,10 @@ TREES = {
     'deep': [('/'.join('d%d' % i for i in range(1, k + 1)), 'dir', None) for k in range(1, 10)] + [('/'.join('d%d' % i for i in range(1, 10)) + '/leaf.txt', 'file', D(11))],
     'many': [('file%02d.txt' % i, 'file', D(i + 1)) for i in range(45)],
     'boot': [('boot.img', 'file', D(2048)), ('data.txt', 'file', D(3))],
+    # UDF records Latin-1 names in 8 bits and everything else in 16 bits: mix them along one path
+    'unicode-nested': [('中', 'dir', None), ('中/ä.txt', 'file', D(12)), ('中/plain.txt', 'file', D(13)), ('ä', 'dir', None), ('ä/中.txt', 'file', D(14)),
+                       ('ä/sub', 'dir', None), ('ä/sub/中', 'dir', None), ('ä/sub/中/x.txt', 'file', D(15))],
+    'boot-sub': [('isolinux', 'dir', None), ('isolinux/isolinux.bin', 'file', D(2048)), ('data.txt', 'file', D(3)), ('other', 'dir', None), ('other/x.txt', 'file', D(4))],
     'hide': [('keep.txt', 'file', D(1)), ('secret.txt', 'file', D(2)), ('skip.bak', 'file', D(3))],
 }
 
@@ -143,6 +147,9 @@ def special_cases():
     return [
         ('boot', ['-b', 'boot.img', '-c', 'boot.cat', '-no-emul-boot'], 'boot'),
         ('boot', ['-b', 'boot.img', '-c', 'boot.cat', '-no-emul-boot', '-boot-info-table', '-boot-load-size', '4'], 'boot'),
+        ('boot-sub', ['-b', 'isolinux/isolinux.bin', '-c', 'isolinux/boot.cat', '-no-emul-boot'], 'boot'),
+        ('boot-sub', ['-b', 'isolinux/isolinux.bin', '-c', 'isolinux/boot.cat', '-no-emul-boot', '-boot-info-table', '-boot-load-size', '4'], 'boot'),
+        ('boot-sub', ['-b', 'isolinux/isolinux.bin', '-c', 'boot.cat', '-no-emul-boot'], 'boot'),
         ('hide', ['-hide', 'secret.txt'], 'hide'),
         ('hide', ['-hide-joliet', 'secret.txt'], 'hide-joliet'),
         ('hide', ['-hidden', 'secret.txt'], 'hidden'),
@@ -209,7 +216,11 @@ def roundtrip(tree_name, opts, tweak, workdir, res=None):
         n_iso = len(files) - (1 if 'boot' in tweak else 0)
         symlinks_recorded = len([1 for p, e in t.by_path.items() if not e.is_dir and d.rr and d.rr.present and b'SL' in e.su]) if has_rr else 0
         placeholders = n_links if (has_u and not has_rr) else 0
-        if n_iso - placeholders != n_src_files and not any(len(os.path.basename(rel)) == 0 for rel in want):
+        too_deep = lvl < 4 and not has_rr and any(rel.count('/') >= 7 for rel in want)
+        if too_deep:
+            # ISO9660 proper cannot hold directories below level 8; the tool says so and leaves them out (as genisoimage does)
+            pass
+        elif n_iso - placeholders != n_src_files and not any(len(os.path.basename(rel)) == 0 for rel in want):
             viols.append({'clause': 'every source file appears exactly once in the ISO9660 view', 'cls': 'count %+d' % (n_iso - placeholders - n_src_files),
                           'msg': '%s: %d ISO9660 files for %d source files' % (what, n_iso - placeholders, n_src_files)})
         for p, e in t.by_path.items():
@@ -251,6 +262,7 @@ def roundtrip(tree_name, opts, tweak, workdir, res=None):
             exp[rel] = v
         if 'boot' in tweak:
             got.pop('boot.cat', None)
+            got.pop('isolinux/boot.cat', None)
         if view == 'rockridge':
             got = dict((k, v) for k, v in got.items() if k.split('/')[0] not in ('rr_moved', '.rr_moved'))
         diffs = []
@@ -266,7 +278,7 @@ def roundtrip(tree_name, opts, tweak, workdir, res=None):
             elif a[0] != b[0]:
                 diffs.append('%s is a %s, expected %s' % (rel, a[0], b[0]))
             elif a != b:
-                if 'boot-info-table' in ' '.join(opts) and rel == 'boot.img' and a[1][:8] == b[1][:8] and a[1][64:] == b[1][64:]:
+                if 'boot-info-table' in ' '.join(opts) and os.path.basename(rel) in ('boot.img', 'isolinux.bin') and a[1][:8] == b[1][:8] and a[1][64:] == b[1][64:]:
                     continue
                 diffs.append('%s content/target differs' % rel)
         if diffs:
@@ -282,7 +294,7 @@ def tasks(tier):
     cases = []
     for opts in option_sets(tier):
         for tn in TREES:
-            if tn in ('boot', 'hide'):
+            if tn in ('boot', 'boot-sub', 'hide'):
                 continue
             if tier == 'quick' and tn in ('many', 'deep', 'empty-dirs') and (opts.count('-J') + opts.count('-udf') != 2 or '-r' not in opts):
                 continue
@@ -301,7 +313,7 @@ def run_task(task):
     cwd = os.getcwd()
     try:
         for tn, opts, tweak in task['cases']:
-            case = {'tree': tn, 'opts': opts, 'tweak': tweak, 'size': len(opts), 'shape': ''}
+            case = {'tree': tn, 'opts': opts, 'tweak': tweak, 'size': len(opts), 'shape': '%s %s' % (tn, ' '.join(opts))}
             vs = roundtrip(tn, opts, tweak, workdir, res)
             res.count('evaluations')
             res.add('classes', '%s|%s' % (tn, ' '.join(o for o in opts if not o.isdigit())))
@@ -332,6 +344,7 @@ def shrink(case):
         if o[i] in ('-J', '-udf', '-scan-for-duplicates', '-R', '-r', '-rrip110', '-rrip112'):
             c = dict(case)
             c['opts'] = o[:i] + o[i + 1:]
+            c['shape'] = '%s %s' % (case['tree'], ' '.join(c['opts']))
             yield c
 
 
